@@ -541,6 +541,14 @@ func runC13(ctx *core.Ctx) {
 		pattern, ts := c13GenLong(r, i)
 		c13LikeCase(ctx, core.CaseRef{Stream: "c13long", Index: i}, site, "LIKE", pattern, ts, false)
 	})
+	// patterns WITHOUT wildcards (an equality in disguise) that contain backslashes, dots and quotes-free metacharacters
+	plain := []string{"a\\b", "\\", "a\\", "\\b", "a\\\\b", "a.b", "a\\.b", "(a)", "a|b"}
+	plainTexts := []string{"a\\b", "a\\\\b", "ab", "a", "\\", "\\\\", "a\\", "\\b", "", "a.b", "axb", "a\\.b", "(a)", "a|b", "b"}
+	run("c13plain", len(plain)*len(c13SiteNames)*2, func(i int, r *rand.Rand) {
+		site := c13SiteNames[i%len(c13SiteNames)]
+		j := i / len(c13SiteNames)
+		c13LikeCase(ctx, core.CaseRef{Stream: "c13plain", Index: i}, site, []string{"LIKE", "NOT LIKE"}[j%2], plain[j/2], plainTexts, true)
+	})
 	// letter case: a pattern and its other-case twin are run one after the other in the same process (every
 	// character other than % and _ matches only itself, whatever text-keyed caches the engine keeps)
 	casePairs := [][2]string{{"ab%", "AB%"}, {"%a.b", "%A.B"}, {"a_b%", "A_B%"}, {"%ab%", "%AB%"}, {"kq%", "KQ%"}, {"%w.v", "%W.V"}, {"p_r%t", "P_R%T"}, {"Ab", "aB"}}
@@ -625,10 +633,18 @@ func c13LikeCase(ctx *core.Ctx, ref core.CaseRef, site, op, pattern string, text
 			}
 		}
 	}
-	sql := c13Sites[site].sql("s", "$X "+op+" "+sqlStr(pattern))
+	// the keyword in the letter case people write it in: every seventh case lower, every eleventh capitalised
+	written := op
+	switch {
+	case ref.Index%7 == 3:
+		written = strings.ToLower(op)
+	case ref.Index%11 == 5:
+		written = map[string]string{"LIKE": "Like", "NOT LIKE": "Not Like"}[op]
+	}
+	sql := c13Sites[site].sql("s", "$X "+written+" "+sqlStr(pattern))
 	cs := &c13Case{CaseRef: ref, Site: site, Op: op, Pattern: pattern, SQL: sql, NTexts: len(rows)}
 	shape, meta := c13PatternShape(pattern)
-	base := map[string]string{"site": site, "op": op, "pattern_shape": shape, "pattern_meta": meta}
+	base := map[string]string{"site": site, "op": op, "pattern_shape": shape, "pattern_meta": meta, "keyword_written": written}
 	attrsOf := func(i int, exp, g string) map[string]string {
 		m := map[string]string{"expected": exp, "got": strings.SplitN(g, ":", 2)[0]}
 		for k, v := range base {
